@@ -91,6 +91,7 @@ PROPS = {
             fam("reduce-float", g(gen.fam_reduce, mode="float"), 0, 0, mode="float", view="values", rule="as above with ln, exp, recip, sigmoid, softmax, real exponents"),
             fam("sizes", g(gen.fam_sizes, part="reduce"), 0, 0, view="values", rule="lengths 5..65 that are not small powers of two (loop remainders): sum(k) / sum_all over groups of awkward length, every exact element map"),
             fam("sizes-float", g(gen.fam_sizes, mode="float", part="reduce"), 0, 0, mode="float", view="values", rule="as above with exp, ln, recip, sigmoid, softmax rows of awkward length"),
+            fam("maps-edges", g(gen.fam_scalar_edges, part="maps"), 0, 0, mode="float", view="values", relative=True, rule="every element map at magnitudes 1e-200..1e200, powf with whole exponents around and beyond 2^24 / 2^31 / 2^32 / 2^53 on bases of both signs and bases next to one: forward values (and gradients), relative comparison"),
             fam("softmax-edges", g(gen.fam_scalar_edges, part="softmax"), 0, 0, mode="float", view="values", rule="softmax at magnitudes 1e-200..1e200 and batches of rows at very different levels (+-700, +-385, +-210, 30, 0): every row normalises on its own, row sums read back"),
         ],
         "assumptions": [F64_NOTE, "softmax rows sum to one only up to rounding in floats; the oracle compares with exp(x)/sum exp(x) under the float tolerance"],
@@ -117,6 +118,7 @@ PROPS = {
     },
     "C10": {
         "families": [
+            fam("bigpasses", g(gen.fam_bigpasses), 0, 0, mode="float", view="values", rule="element maps on 1024 / 1100 elements differentiated three times with different seeds"),
             fam("accumulate", g(gen.fam_accumulate), 200, 6000, view="cntpend", rule="distinct (program, pass sequence, clear point): 2-4 passes (same result again / interior node then containing result / shared sub-graphs) next to one fresh instance per pass; every gradient = sum of the single-pass gradients since the last clear (the implementation against itself), counters and pending flags of every node after every pass"),
             fam("history", g(gen.fam_history), 150, 4000, view="cntpend", rule="distinct histories; counters and pending flags of every live node after every pass"),
         ],
